@@ -73,6 +73,27 @@ let check_component name keys ops final nofinal budget =
        | [r] -> print_reply r
        | [] -> "?")
     | _ -> "?" in
+  (* early pruning of staged ops: a stage of a "concat" op must already produce its slice of
+     the observed array; the partial sum of a "sum" op may not exceed the observed total *)
+  let obs_elems = Array.map (fun o ->
+      if o.mode = "concat" && starts_with o.obs "*[" then
+        Array.of_list (split_top (String.sub o.obs 2 (String.length o.obs - 3)))
+      else [||]) ops in
+  let stage_plausible o st (r : reply) (prev : reply list) : bool =
+    match o.mode with
+    | "concat" ->
+      let idx = (let rec find j = if j >= n then -1 else if ops.(j) == o then j else find (j + 1) in find 0) in
+      let el = obs_elems.(idx) in
+      (match r with
+       | RArr [x] -> Array.length el = Array.length o.stages && st < Array.length el && print_reply x = el.(st)
+       | _ -> true)
+    | "sum" ->
+      (match r, (if starts_with o.obs ":" then int_of_string_opt (String.sub o.obs 1 (String.length o.obs - 1)) else None) with
+       | RInt z, Some total ->
+         let sofar = List.fold_left (fun acc p -> match p with RInt y -> acc + int_of_string (string_of_z y) | _ -> acc) 0 prev in
+         sofar + int_of_string (string_of_z z) <= total
+       | _ -> true)
+    | _ -> true in
   let depth = ref 0 in
   let last_sec = ref (z_of_string "0") in
   let rec search srv =
@@ -82,7 +103,8 @@ let check_component name keys ops final nofinal budget =
     let alldone = ref true in
     for i = 0 to n - 1 do if required i && not (finished i) then alldone := false done;
     if !alldone && final_ok srv !last_sec then raise Found;
-    let key = Bytes.to_string prog ^ Marshal.to_string srv [] in
+    (* the replies of the stages already done decide whether a staged op can still match *)
+    let key = Bytes.to_string prog ^ Marshal.to_string (srv, partial) [] in
     if Hashtbl.mem memo key then () else begin
       Hashtbl.add memo key ();
       (* the earliest response among unfinished required ops bounds what may come next *)
@@ -112,7 +134,7 @@ let check_component name keys ops final nofinal budget =
           let last = st + 1 = Array.length o.stages in
           let ok =
             if o.mode = "pending" then true
-            else if not last then true
+            else if not last then stage_plausible o st r partial.(i)
             else combine o (List.rev (r :: partial.(i))) = o.obs in
           if ok then begin
             Bytes.set prog i (Char.chr (st + 1));
